@@ -355,6 +355,121 @@ contains
 end module rc_c
 """,
     },
+    "component_named_like_type": {
+        "cn_types.f90": """module cn_types
+  implicit none
+  type :: {point#T1!}
+    real :: {px#C1!}
+    integer :: {code#C5!}
+  end type
+  type :: {state#T2!}
+    integer :: {scode#C2!}
+  end type
+  type :: base_box
+    integer :: state
+  end type
+  type, extends(base_box) :: {box#T3!}
+    type({point#T1}) :: {point#C3!}
+    type({state#T2}) :: {cur#C4!}
+    integer :: code
+  end type
+end module cn_types
+""",
+        "cn_use.f90": """subroutine cn_use()
+  use cn_types
+  implicit none
+  type({box#T3}) :: b
+  b%{point#C3}%{px#C1} = 1.0
+  b%{point#C3}%{code#C5} = 2
+  b%{cur#C4}%{scode#C2} = 3
+  b%code = 4
+  b%state = 5
+end subroutine cn_use
+""",
+    },
+    "generic_spec_visibility": {
+        "gv_vec.f90": """module gv_vec
+  implicit none
+  private
+  public :: vec, operator(+), {norm#P1}, operator(.dot.), {scale_by#P2}
+  type :: vec
+    real :: x
+  end type
+  interface operator(+)
+    module procedure add_vec
+  end interface
+  interface operator(.dot.)
+    module procedure dot_vec
+  end interface
+contains
+  function add_vec(a, b) result(c)
+    type(vec), intent(in) :: a, b
+    type(vec) :: c
+    c%x = a%x + b%x
+  end function
+  real function dot_vec(a, b)
+    type(vec), intent(in) :: a, b
+    dot_vec = a%x * b%x
+  end function
+  function {norm#P1!}(a) result(r)
+    type(vec), intent(in) :: a
+    real :: r
+    r = abs(a%x)
+  end function
+  subroutine {scale_by#P2!}(a, f)
+    type(vec), intent(inout) :: a
+    real, intent(in) :: f
+    a%x = a%x * f
+  end subroutine
+  subroutine helper()
+  end subroutine
+end module gv_vec
+""",
+        "gv_tok.f90": """module gv_tok
+  implicit none
+  private :: from_int, assignment(=), helper, operator(==), same_tok
+  type :: tok
+    integer :: k
+  end type
+  interface assignment(=)
+    module procedure from_int
+  end interface
+  interface operator(==)
+    module procedure same_tok
+  end interface
+contains
+  subroutine from_int(t, i)
+    type(tok), intent(out) :: t
+    integer, intent(in) :: i
+    t%k = i
+  end subroutine
+  logical function same_tok(a, b)
+    type(tok), intent(in) :: a, b
+    same_tok = a%k == b%k
+  end function
+  subroutine helper()
+  end subroutine
+end module gv_tok
+""",
+        "gv_pub.f90": """module gv_pub
+  implicit none
+contains
+  subroutine {helper#H1!}()
+  end subroutine
+end module gv_pub
+""",
+        "gv_main.f90": """program gv_main
+  use gv_vec
+  use gv_tok
+  use gv_pub
+  implicit none
+  type(vec) :: v
+  print *, {norm#P1}(v)
+  call {scale_by#P2}(v, 2.0)
+  call {helper#H1}()
+end program gv_main
+""",
+    },
     "keyword_argument": {
         "kw.f90": """module kw
   implicit none
